@@ -221,7 +221,11 @@ def compare(s, a, b, la, lb, upto, counts, near=0.05, limit_steps=()):
         for l in s["links"]:
             q_ = max(abs(float(a.link["flowrate"][l["n"]][i])), abs(float(b.link["flowrate"][l["n"]][i])))
             loss = abs(float(b.node["head"][l["a"]][i]) - float(b.node["head"][l["b"]][i]))
-            qsens[l["n"]] = q_ / (1.852 * max(loss, 1e-9)) * HSENS if l["t"] == "pipe" and float(b.link["status"][l["n"]][i]) != 0 else 0.0
+            if float(b.link["status"][l["n"]][i]) == 0 or l["t"] not in ("pipe", "TCV"):
+                qsens[l["n"]] = 0.0
+            else:
+                # loss ~ q^1.852 (pipe) resp. q^2 (throttle valve)
+                qsens[l["n"]] = q_ / ((1.852 if l["t"] == "pipe" else 2.0) * max(loss, 1e-9)) * HSENS
         for nd in s["nodes"]:
             nm = nd["n"]
             if nm not in conn:
